@@ -71,6 +71,24 @@ theorem path_injective_different_jobs_partial (st : St) (dir : Str) (n₁ n₂ j
   simp only [FileRes.source, St.subdir, hd₁, hd₂] at this
   exact job_dirs_distinct name₁ name₂ tok₁ tok₂ ha₁.1 ha₂.1 hne this
 
+/-- **path_injective over converted PythonResults**: `result.as_json()`, `.as_str()`, `.as_repr()` of the calls of a PythonJob get
+pairwise different file names — the name determines the call and the conversion (`result1-str.txt` ≠ `result1-repr.txt`) -/
+theorem converted_names_injective (k₁ k₂ : Nat) (c₁ c₂ : Conv) (h : convValue k₁ c₁ = convValue k₂ c₂) : k₁ = k₂ ∧ c₁ = c₂ :=
+  convValue_inj k₁ k₂ c₁ c₂ h
+
+/-- … hence two converted files of the *same* job never share a path unless they are the same conversion of the same result
+(for different jobs: `path_injective_different_jobs_partial`) -/
+theorem converted_paths_injective (st : St) (dir : Str) (n₁ n₂ j k₁ k₂ : Nat) (c₁ c₂ : Conv)
+    (h₁ : st.file? n₁ = some (.jobFile j (convValue k₁ c₁) none true))
+    (h₂ : st.file? n₂ = some (.jobFile j (convValue k₂ c₂) none true))
+    (hd : '/' ∉ (st.job j).dirname) (h : st.path dir (.file n₁) = st.path dir (.file n₂)) : k₁ = k₂ ∧ c₁ = c₂ := by
+  have := (path_injective_partial st dir n₁ n₂ _ _ h₁ h₂ (by simpa [FileRes.source, St.subdir] using hd)
+    (by simpa [FileRes.source, St.subdir] using hd) h).2
+  exact convValue_inj k₁ k₂ c₁ c₂ (by simpa [FileRes.value] using this)
+
+/-- `str(n)` is injective (uids and result names are numbered) -/
+theorem decimal_injective (n m : Nat) (h : Nat.toDigits 10 n = Nat.toDigits 10 m) : n = m := toDigits_inj n m h
+
 /-- full statement of `path_injective`: in every state a program can reach, distinct file resources have distinct paths -/
 def PathInjective : Prop :=
   ∀ (prog : List Stmt) (st : St), run prog = .ok st → ∀ n₁ n₂ f₁ f₂, st.file? n₁ = some f₁ → st.file? n₂ = some f₂ → n₁ ≠ n₂ →
@@ -315,6 +333,10 @@ example : (match run [.job none,
     | .error _ => none) =
     some [[.one (.dictPath [(['v'], ['L', '/', 't', 'k', '1', '/', 'o', '.', 'g', 'z']), (['i'], ['L', '/', 't', 'k', '1', '/', 'o', '.', 't', 'b', 'i'])])]] := by
   decide
+-- the converted files of the first call
+example : convValue 0 .str = ['r', 'e', 's', 'u', 'l', 't', '1', '-', 's', 't', 'r', '.', 't', 'x', 't'] := by decide
+example : convValue 0 .repr = ['r', 'e', 's', 'u', 'l', 't', '1', '-', 'r', 'e', 'p', 'r', '.', 't', 'x', 't'] := by decide
+example : convValue 0 .json = ['r', 'e', 's', 'u', 'l', 't', '1', '-', 'j', 's', 'o', 'n', '.', 'j', 's', 'o', 'n'] := by decide
 -- uids
 example : uid .rf 12 = ['_', '_', 'R', 'E', 'S', 'O', 'U', 'R', 'C', 'E', '_', 'F', 'I', 'L', 'E', '_', '_', '1', '2'] := by decide
 -- shlex.quote
